@@ -114,6 +114,35 @@ type bscInst struct {
 	world    *evmsim.World
 	contract common.Address
 	outsider bscsim.Key
+	// the list announced by the installed (epoch) header and by every later epoch header; it replaces vals for the blocks
+	// above genesis + len(vals)/2 (equal to vals when the counterparty does not rotate its validators)
+	nextKeys []bscsim.Key
+	nextVals []common.Address
+}
+
+// sealer is the in-turn validator of block `number` under the list in force for that block.
+func (s *bscInst) sealer(number uint64) bscsim.Key {
+	if number > s.genesis.Number+uint64(len(s.vals)/2) {
+		return s.nextKeys[number%uint64(len(s.nextKeys))]
+	}
+	return s.keys[number%uint64(len(s.keys))]
+}
+
+// sortedKeys derives n validator keys from a seed, in ascending address order.
+func sortedKeys(seed []byte, from, n int) ([]bscsim.Key, []common.Address) {
+	var addrs []common.Address
+	byAddr := map[common.Address]bscsim.Key{}
+	for i := from; i < from+n; i++ {
+		k := bscsim.KeyFromSeed(seed, i)
+		addrs = append(addrs, k.Addr)
+		byAddr[k.Addr] = k
+	}
+	vals := bscsim.Sorted(addrs)
+	keys := make([]bscsim.Key, n)
+	for i, a := range vals {
+		keys[i] = byAddr[a]
+	}
+	return keys, vals
 }
 
 type ethInst struct {
@@ -274,19 +303,14 @@ func newBSC(t *rapid.T, p genParams) *inst {
 	in := &inst{Typ: BSC, Src: p.src, Seq: rapid.Uint64Range(1, 1<<20).Draw(t, "seq"), Value: commitmentValue(t)}
 	n := rapid.IntRange(1, 5).Draw(t, "bsc_n")
 	seed := rapid.Uint64().Draw(t, "bsc_seed")
-	var addrs []common.Address
-	byAddr := map[common.Address]bscsim.Key{}
-	for i := 0; i < n; i++ {
-		k := bscsim.KeyFromSeed(kit.U64(seed), i)
-		addrs = append(addrs, k.Addr)
-		byAddr[k.Addr] = k
+	keys, vals := sortedKeys(kit.U64(seed), 0, n)
+	s := &bscInst{keys: keys, vals: vals, outsider: bscsim.KeyFromSeed(kit.U64(seed), 99), nextKeys: keys, nextVals: vals}
+	// two thirds of the counterparties rotate their validators at the installed epoch header: it announces a disjoint list of
+	// 1-5 new validators (disjoint, so that no new validator is a recent signer when the list takes over)
+	rotates := n >= 2 && rapid.IntRange(0, 2).Draw(t, "bsc_rotates") != 0
+	if rotates {
+		s.nextKeys, s.nextVals = sortedKeys(kit.U64(seed), 10, rapid.IntRange(1, 5).Draw(t, "bsc_next_n"))
 	}
-	vals := bscsim.Sorted(addrs)
-	keys := make([]bscsim.Key, n)
-	for i, a := range vals {
-		keys[i] = byAddr[a]
-	}
-	s := &bscInst{keys: keys, vals: vals, outsider: bscsim.KeyFromSeed(kit.U64(seed), 99)}
 	s.epoch = uint64(rapid.IntRange(n/2+1, 9).Draw(t, "bsc_epoch"))
 	s.chainID = rapid.SampledFrom([]uint64{56, 97, 714, 1<<32 + 5}).Draw(t, "bsc_chain_id")
 	g := s.epoch * (drawHeight(t, p, "bsc_epochs"))
@@ -313,20 +337,23 @@ func newBSC(t *rapid.T, p genParams) *inst {
 	in.Height = cs.Header.Height
 	in.Cons = &bsctypes.ConsensusState{Timestamp: gh.Time, Height: cs.Header.Height, Root: gh.Root.Bytes()}
 	in.bsc = s
-	in.Desc = map[string]interface{}{"height": in.Height.String(), "validators": n, "epoch": s.epoch, "chain_id": s.chainID, "delay_blocks": n/2 + 1}
+	in.Desc = map[string]interface{}{"height": in.Height.String(), "validators": n, "epoch": s.epoch, "chain_id": s.chainID, "delay_blocks": n/2 + 1, "rotates_to": len(s.nextVals), "rotates": rotates}
 	return in
 }
 
 // fill completes and seals a header for its number: in-turn sealer, epoch validator bytes.
 func (s *bscInst) fill(t *rapid.T, h *bscsim.Header) {
-	k := s.keys[h.Number%uint64(len(s.keys))]
+	k := s.keys[h.Number%uint64(len(s.keys))] // the installed header itself
+	if s.genesis != nil {
+		k = s.sealer(h.Number)
+	}
 	h.Coinbase = k.Addr
 	h.Difficulty = new(big.Int).Set(bscsim.DiffInTurn)
 	var vanity [32]byte
 	copy(vanity[:], rbytes(t, "bsc_vanity", 32))
 	var mid []byte
 	if h.Number%s.epoch == 0 {
-		mid = bscsim.AddrBytes(s.vals)
+		mid = bscsim.AddrBytes(s.nextVals)
 	}
 	h.Extra = bscsim.BuildExtra(vanity, mid)
 	bscsim.Seal(h, k, s.chainID)
